@@ -19,6 +19,20 @@ Proof.
   pose proof (N.div_mod x g ltac:(lia)). pose proof (N.mod_lt x g ltac:(lia)). nia.
 Qed.
 
+Lemma shift_le sg ka kb x rd : kb <= ka -> kb * sg + (ka - kb + x) * sg <= rd -> ka * sg + x * sg <= rd.
+Proof. intros H1 H2. replace (ka * sg + x * sg) with (kb * sg + (ka - kb + x) * sg); [exact H2|nia]. Qed.
+
+Lemma slot_bound sg kr ka kb wr dg i : 0 < sg -> kr < ka -> ka * sg <= wr + dg ->
+  wr - kb * sg + dg <= (i + 1) * sg -> kb * sg <= wr -> kr - kb <= i.
+Proof.
+  intros Hg H1 H2 H3 H4.
+  assert ((kr + 1) * sg <= (kb + i + 1) * sg) by nia.
+  apply N.mul_le_mono_pos_r in H; lia.
+Qed.
+
+Lemma if_ret {A} (c : bool) (a b : A) : (if c then Ret a else Ret b) = Ret (if c then a else b).
+Proof. destruct c; reflexivity. Qed.
+
 Lemma aget_In k v m : aget k m = Some v -> In (k, v) m.
 Proof.
   induction m as [|[k' v'] r IH]; cbn [aget]; [discriminate|].
@@ -52,6 +66,10 @@ Proof.
   - exfalso. apply Hni. rewrite <- E. apply in_map. exact Hx.
   - apply IH; assumption.
 Qed.
+
+(* From here on lia/nia treat div and mod as opaque atoms (all facts about them come from the
+   lemmas above); the div_mod_to_equations hook makes the big contexts below intractable. *)
+Local Ltac Zify.zify_post_hook ::= idtac.
 
 (** ---- the structural invariant of the active transfer *)
 Record sinv (d : dm) : Prop := mk_sinv {
@@ -151,35 +169,40 @@ Proof.
     - cbn [b_gran b_off b_chunks]. split; [reflexivity|split; [reflexivity|]].
       replace (ka * sg - kb * sg) with ((ka - kb) * sg) by nia. rewrite (mult_div sg _ gs).
       destruct (N.of_nat (length (b_chunks (d_buf d))) <? ka - kb); intros j c Hj; [destruct j; discriminate|].
-      rewrite nth_error_skipn in Hj. exact Hj. }
-  intro E. injection E as <- <-.
+      rewrite nth_error_skipn' in Hj. exact Hj. }
+  rewrite if_ret. intro E. injection E as <- <-.
   match goal with |- sinv ?D /\ _ => set (dn := D) end.
   specialize (NEW (d_buf dn) eq_refl). destruct NEW as [Ng [No Nc]].
-  split; [|split; [|split; [reflexivity|reflexivity]]].
+  split; [|split; [|split; [reflexivity|unfold moves_so_far; subst dn; cbn [g_acks d_active d_req]; rewrite Act; reflexivity]]].
   - constructor; cbn [dn d_sg d_dg d_req d_dside d_next_read d_next_write d_pread upd with_port]; fold v sg dg rd; try assumption.
     + tauto.
     + split; [lia|]. replace (d_next_write d + dg - v_daddr v) with (wr + dg) by (unfold wr; lia).
       split; [|exact Hwd]. rewrite Hkw. replace (kw * dg + dg) with ((kw + 1) * dg) by lia. apply mult_mod. exact gd.
     + replace (d_next_write d + dg - v_daddr v) with (wr + dg) by (unfold wr; lia). rewrite No, Hka. reflexivity.
     + intros j c Hj Hv. rewrite No. apply Nc in Hj. pose proof (ch _ c Hj Hv) as B. rewrite bo, Hkb in B. fold sg rd in B.
-      rewrite Nat2N.inj_add, N2Nat.id in B. nia.
+      rewrite Nat2N.inj_add, N2Nat.id in B.
+      replace ((N.of_nat j + 1) * sg) with ((N.of_nat j + 1) * sg) by reflexivity.
+      apply (shift_le sg ka kb (N.of_nat j + 1) rd Hkab).
+      replace (ka - kb + (N.of_nat j + 1)) with (ka - kb + N.of_nat j + 1) by (clear; lia). exact B.
     + intros id a Hin. destruct (pr id a Hin) as [P1 [P2 [P3 [P4 P5]]]]. fold v sg rd in P1, P2, P3, P4, P5.
       rewrite bo, Hkb in P4, P5. set (r := a - v_saddr v) in *.
-      destruct (mult_of sg r gs P2) as [kr Hkr].
+      destruct (mult_of sg r gs P2) as [kr Hkr]. rewrite Hkr in P4, P5. rewrite <- N.mul_sub_distr_r, (mult_div sg _ gs) in P5.
+      assert (Hkbr : kb <= kr) by (apply (N.mul_le_mono_pos_r _ _ sg gs); exact P4).
       assert (Hge : ka <= kr).
       { destruct (N.le_gt_cases ka kr) as [|Hlt]; [assumption|exfalso].
-        assert (Hj : (N.to_nat (kr - kb) <= i)%nat) by nia.
+        pose proof (slot_bound sg kr ka kb wr dg (N.of_nat i) gs Hlt Hka1 Ci Hkb1) as Hb.
+        assert (Hj : (N.to_nat (kr - kb) <= i)%nat) by (clear - Hb; lia).
         destruct (Vi _ Hj) as [c [Hc Hcv]].
-        replace (r - kb * sg) with ((kr - kb) * sg) in P5 by nia. rewrite (mult_div sg _ gs) in P5.
         rewrite (P5 c Hc) in Hcv. discriminate. }
-      split; [exact P1|split; [exact P2|split; [exact P3|]]]. rewrite No. split; [nia|].
+      split; [exact P1|split; [exact P2|split; [exact P3|]]]. rewrite No, Hkr.
+      split; [apply N.mul_le_mono_r; exact Hge|].
       intros c Hc. apply Nc in Hc. apply P5.
-      replace (r - kb * sg) with ((kr - kb) * sg) by nia. rewrite (mult_div sg _ gs).
-      replace (r - ka * sg) with ((kr - ka) * sg) in Hc by nia. rewrite (mult_div sg _ gs) in Hc.
-      replace (N.to_nat (kr - kb)) with (N.to_nat (ka - kb) + N.to_nat (kr - ka))%nat by lia. exact Hc.
-  - unfold winv. cbn [dn g_writes]. apply Forall_app. split.
-    + eapply Forall_impl; [|exact W]. intros x [v0 [Hv0 Hr]]. exists v0. split; [exact Hv0|exact Hr].
-    + constructor; [|constructor]. exists v. split.
-      * unfold moves_so_far. cbn [dn d_active]. apply in_or_app. right. left. reflexivity.
-      * unfold in_range. split; [exact sside|]. split; [exact wr1|]. rewrite Ldata. unfold wr in Hwd. lia.
+      rewrite <- N.mul_sub_distr_r, (mult_div sg _ gs) in Hc.
+      replace (N.to_nat (kr - kb)) with (N.to_nat (ka - kb) + N.to_nat (kr - ka))%nat by (clear - Hkab Hge; lia). exact Hc.
+  - assert (MS : moves_so_far dn = moves_so_far d)
+      by (unfold moves_so_far, dn; cbn [g_acks d_active d_req]; rewrite Act; reflexivity).
+    unfold winv. rewrite MS. cbn [dn g_writes]. apply Forall_app. split; [exact W|].
+    constructor; [|constructor]. exists v. split.
+    + unfold moves_so_far. rewrite Act. apply in_or_app. right. left. reflexivity.
+    + unfold in_range. split; [exact sside|]. split; [exact wr1|]. rewrite Ldata. unfold wr in Hwd. clear - Hwd rd3 wr1. lia.
 Qed.
